@@ -6,7 +6,7 @@ from nvsa import cast
 from nvsa.report import AnalysisError
 
 from ._c14_common import (LITERAL_BITS, alpha_print, flat, is_int, is_min, name_width, res, return_type, then_returns, times8, type_bytes,
-                          upper_bound, zero_fill_guard_ok)
+                          upper_bound, zero_fill_guard_ok, early_exit_before)
 
 COPY = "nunavutCopyBits"
 SAT = "nunavutSaturateBufferFragmentBitLength"
@@ -241,6 +241,8 @@ def rule_get(fns: typing.Dict[str, dict]) -> typing.List[dict]:
                     ms = [c2 for s2, t2 in v.terms() for c2 in _calls(t2) if c2[1] == "memset"][0]
                     e2 = v.env(s.index)
                     gok, gdetail = zero_fill_guard_ok(pre[0].guards, ms[2][2], e2)
+                    if gok:
+                        gok, gdetail = early_exit_before(v.stmts, pre[0].index, {p_ for p_ in v.params if "len" in p_})
                     out.append(res(R, name, f"{name}: the zero fill of the output tail is not skipped while bytes remain to be cleared", gok, gdetail))
                     start, count = cast.substitute(ms[2][0], e2), cast.substitute(ms[2][2], e2)
                     want_start = ("bin", "/", ext, ("int", 8, ""))
